@@ -187,6 +187,9 @@ func generateConfig(r *rand.Rand, dumphook string, feedURLs []string) genConfig 
 			fmt.Fprintf(&b, "%s = \"#%06X\"\n", k, r.Intn(1<<24))
 		case x < 11:
 			bad := []string{"", "#", "#12345", "#1234567", "123456", "#12345g", "#+1+2+3", "#-1-2-3", "red", "#１２３４５６", " #123456", "#123456 ", "#12 456", "#0x1234", "#1_2_3_", "##12345", "#é1234"}[r.Intn(17)]
+			if r.Intn(4) == 0 {
+				bad = "" // the empty string is a value, and not a colour: it is not the same as leaving the key out
+			}
 			fmt.Fprintf(&b, "%s = %s\n", k, q(bad))
 			if g.MustReject == "" {
 				g.MustReject = "colour"
